@@ -2,11 +2,13 @@ def all_checks():
     from verifkit.checks import concurrency_checks
     from verifkit.checks import engine_checks
     from verifkit.checks import policy_checks
+    from verifkit.checks import pools_check
     from verifkit.checks import reuse_check
     from verifkit.checks import static_checks
+    from verifkit.checks import store_check
 
     checks = {}
-    for mod in (engine_checks, concurrency_checks, reuse_check, policy_checks, static_checks):
+    for mod in (engine_checks, concurrency_checks, reuse_check, policy_checks, static_checks, store_check, pools_check):
         for c in mod.CHECKS:
             checks[c.id] = c
     return checks
